@@ -242,7 +242,9 @@ def snap_array(a):
     if isinstance(v, np.generic):  # numpy scalar left behind by a ufunc on a 0-d array
         v = np.asarray(v)
     if isinstance(v, np.ndarray):
-        return (dims_sig(a.dims), v.copy(), str(v.dtype), v.shape)
+        c = v.copy()
+        c.flags.writeable = v.flags.writeable  # an operation that leaves an input read-only has altered it (the next in-place write fails)
+        return (dims_sig(a.dims), c, str(v.dtype), v.shape)
     return (dims_sig(a.dims), v, type(v).__name__, None)
 
 
@@ -265,6 +267,8 @@ def values_equal(x, y):
 def same_as_snap(snap, a):
     dsig, v, dt, shp = snap
     if dims_sig(a.dims) != dsig:
+        return False
+    if isinstance(v, np.ndarray) and isinstance(a.values, np.ndarray) and v.flags.writeable != a.values.flags.writeable:
         return False
     return values_equal(v, a.values)
 
